@@ -517,7 +517,9 @@ def _check_ops(sp, groups):
             want_ret = sp.op(t, ret, out)
         except ScriptedRaise as e:
             want_res = 'raised ' + e.name
-            if e.name != 'KeyError':
+            # a callback raising while postponed events are released leaves a well defined state: that
+            # event was delivered, the later ones stay pending in order (they are popped one at a time)
+            if e.name != 'KeyError' and t[0] != 'enable':
                 sp.failed = 'deleted' if any(x not in sp.attached for x in sp.dead) else True
         except Mismatch as m:
             return [{'sig': m.clause + territory(), 'what': m.what}]
